@@ -231,7 +231,7 @@ def mk_confine(ncomp, method, write):
 
         def h(c1: int, c2: int, c3: int, c4: int, cond: int) -> None:
             assert all(0 <= x < len(ALPHA) for x in (c1, c2, c3, c4)) and 0 <= cond < NCOND
-            assert (ncomp >= 2 or c2 == 0) and (ncomp >= 3 or c3 == 0) and (ncomp >= 4 or c4 == 0)
+            assert (ncomp >= 1 or c1 == 0) and (ncomp >= 2 or c2 == 0) and (ncomp >= 3 or c3 == 0) and (ncomp >= 4 or c4 == 0)
             assert ncomp < 4 or c1 == 0         # four components: the absolute-path attempts (leading empty component)
             comps = [pick(ALPHA, x) for x in (c1, c2, c3, c4)[:ncomp]]
             SB.build()
@@ -376,7 +376,7 @@ def obligations(tier):
     for n in (1, 2, 3):
         obs.append(Obligation("predicate-%dcomp" % n, mk_predicate(n), 280 if q else 900, functions=FUNCS,
                               symbolic={"components": "%d symbolic strings of length <= 3" % n}, stubs=["root object that records the joined string (no pathlib)"]))
-    shapes = [(1, "GET", False), (2, "GET", False), (3, "GET", True), (2, "PUT", True), (2, "DELETE", True), (2, "PUT", False), (3, "PUT", True), (3, "DELETE", True)]
+    shapes = [(0, "PUT", True), (0, "DELETE", True), (0, "GET", False), (1, "PUT", True), (1, "DELETE", True), (1, "GET", False), (2, "GET", False), (3, "GET", True), (2, "PUT", True), (2, "DELETE", True), (2, "PUT", False), (3, "PUT", True), (3, "DELETE", True)]
     if not q:
         shapes += [(4, "GET", False), (4, "PUT", True), (4, "DELETE", True), (3, "DELETE", False)]
     for ncomp, method, write in shapes:
